@@ -113,6 +113,11 @@ func (c *Ctx) RunC06(tier string) {
 					if n > 0 {
 						c.check06("org last+("+k+")-"+fmt.Sprint(n-1)+"\n"+strings.Repeat("mov 0, 1\n", n-1)+"last mov 0, 1\n", cfg)
 					}
+					// a label on the END line names the address after the last instruction
+					c.check06("org fin\n"+body+"fin end\n", cfg)
+					c.check06(body+"fin end fin\n", cfg)
+					c.check06("org fin+("+k+")-"+fmt.Sprint(n)+"\n"+body+"fin end\n", cfg)
+					c.check06(body+"fin end fin-1\n", cfg)
 				}
 			}
 		}
